@@ -101,7 +101,7 @@ def main(argv=None):
                 total.merge(res)
                 if args.verbose and diag.strip():
                     print(diag)
-    if hasattr(mod, "finish"):
+    if hasattr(mod, "finish") and mode != "replay":
         mod.finish(total, tier)  # whole-run sanity: deciding monitors reached?
     return report(pid, mod, total, tier, seed, watch.s(), mode)
 
@@ -141,7 +141,10 @@ def report(pid, mod, total, tier, seed, wall_s, mode):
             "distinct_nontrivial": len(total.distinct),
             "rule": mod.META["rule"],
             "samples": total.samples,
-            "observed": total.counters,
+            "observed": {
+                k: (v if not isinstance(v, list) or len(v) <= 40 or k.startswith("reached:") else {"distinct": len(v), "sample": v[:8]})
+                for k, v in total.counters.items()
+            },
             "known_findings_seen": {k: len(v) for k, v in old.items()},
             "inconclusive": total.inconclusive,
         }
@@ -176,6 +179,9 @@ def report(pid, mod, total, tier, seed, wall_s, mode):
     if mode != "replay" and (total.evaluations < 1 or len(total.distinct) < 2):
         print("INCONCLUSIVE property=%s reason=nothing observed" % pid)
         return 2
+    if mode == "replay":
+        print(summary + " -> the recorded case did not violate the property in this run")
+        return 0
     interesting = {k: v for k, v in total.counters.items() if isinstance(v, int)}
     print(summary + " -> held; observed: " + json.dumps(interesting, sort_keys=True))
     return 0
